@@ -33,6 +33,68 @@ def judge(case, o):
     return bad
 
 
+def judge_history(h, obs):
+    """C11 on histories of several calls on wired threads: a requested bit is set on the calling thread and the load succeeds
+    whenever the specification says the kernel accepts it; an unrequested bit is left as it was; an unprivileged load without the bit fails."""
+    bad = []
+    prev = None
+    for e, o in zip(h["hist"], obs):
+        if e["op"] == "load":
+            caller = o["threads"][e["caller"]]
+            before = prev["threads"].get(e["caller"]) if prev else None
+            if e["nnp"] and e["pol"] == "valid" and "BAD" not in e["flags"]:
+                if e["res"] == "nil" and o["result"] != "nil":
+                    bad.append("step %d: NoNewPrivs requested, valid filter, the kernel (as specified) accepts it, but the load failed: %s" % (o["step"], o.get("error")))
+                if "hook_flags" in o and caller["nnp"] != 1:
+                    bad.append("step %d: NoNewPrivs requested but the calling thread does not carry the bit after the load" % o["step"])
+            if not e["nnp"] and before is not None and caller["nnp"] != before["nnp"]:
+                bad.append("step %d: NoNewPrivs not requested but the calling thread's bit changed from %d to %d" % (o["step"], before["nnp"], caller["nnp"]))
+            if not e["nnp"] and not h["priv"] and before is not None and before["nnp"] == 0 and e["pol"] == "valid":
+                if o["result"] == "nil" or e["fid"] in caller["in_force"]:
+                    bad.append("step %d: unprivileged load without no_new_privs did not fail cleanly" % o["step"])
+        prev = o
+    return bad
+
+
+def htags(h):
+    t = []
+    for e in h["hist"]:
+        if e["op"] == "load":
+            t.append("%s%s%s" % ("n" if e["nnp"] else "-", "T" if "TSYNC" in e["flags"] else "-", e["caller"]))
+        else:
+            t.append(e["op"] + e.get("t", ""))
+    return (h["priv"], tuple(t))
+
+
+def histories(ctx, d, th):
+    """Several calls in a row, on different wired threads (a bit set by an earlier call on another thread must not be taken for granted)."""
+    r = ctx.tlc("LoaderGen", lf.gen_cfg("{pool, t1, t2}", 3 if th else 2, '{{}, {"TSYNC"}}', '{"valid"}', "{t1, t2}", False), name="LoaderGenC11h", timeout=3000)
+    ctx.cov["states"] -= r["distinct"]
+    ctx.cov["transitions"] -= r["generated"]
+    hists = [h for h in lf.histories(r["out"]) if sum(1 for e in h["hist"] if e["op"] == "load") >= 2]
+    picked, nclasses = lf.sample(hists, 900 if th else 160, ctx.seed, htags)
+
+    def one(h):
+        script = lf.to_script(h, 3)
+        obs, err = lf.run_child(d + "/loadchild", script, h["priv"])
+        return h, script, obs, err
+    failed = 0
+    for h, script, obs, err in lf.run_many(one, picked):
+        if obs is None or len(obs) != len(h["hist"]):
+            failed += 1
+            ctx.skip("child failed: %s" % (err or "short output"))
+            continue
+        ctx.cov["traces_validated_against_impl"] += 1
+        ctx.cov["evaluations"] += len(obs)
+        ctx.cov["distinct_nontrivial"] += 1
+        for b in judge_history(h, obs):
+            ctx.violation(b, {"history": h, "script": script, "priv": h["priv"], "observed": obs, "how": "./check C11 quick"})
+    if failed > len(picked) // 4:
+        raise vlib.Machinery("%d of %d history children failed" % (failed, len(picked)))
+    ctx.cov["histories_replayed"] = len(picked) - failed
+    ctx.cov["history_classes"] = nclasses
+
+
 def check(ctx, replay=None):
     d = lf.child_bin(ctx)
     if replay:
@@ -97,6 +159,7 @@ def check(ctx, replay=None):
         ctx.sample({"case": c, "env": env, "result": o["result"], "tid_prctl": o.get("tid_prctl"), "tid_seccomp": o.get("tid_seccomp"), "migrated": o.get("migrated")}, limit=4)
     if failed > len(work) // 4:
         raise vlib.Machinery("%d of %d children failed" % (failed, len(work)))
+    histories(ctx, d, th)
     ctx.cov["cases"] = len(cases)
     ctx.cov["migrations_that_took_effect"] = migrated
     ctx.cov["rule"] = ("every load case of LoaderGen with migration: {root, nobody} x NoNewPrivs x flags {0, tsync, log, tsync|log} x {no attempt, forced migration attempt at "
